@@ -5,6 +5,7 @@ import (
 	"fmt"
 	"io"
 	"runtime"
+	"runtime/metrics"
 	"strings"
 
 	"github.com/evanoberholster/imagemeta"
@@ -203,15 +204,42 @@ var (
 
 var measuring bool
 
+// AllocScreen switches the probe to the runtime/metrics allocation counter, which is cheap (no
+// stop-the-world) but approximate: small objects are accounted when their span is retired, so a
+// call can be charged for earlier calls' objects. It is used to find candidate calls inside long
+// histories; a verdict is only ever taken from the exact probe.
+var AllocScreen bool
+
+var screenSample = []metrics.Sample{{Name: "/gc/heap/allocs:bytes"}}
+
+func screenBytes() uint64 {
+	metrics.Read(screenSample)
+	if screenSample[0].Value.Kind() != metrics.KindUint64 {
+		panic("verif: /gc/heap/allocs:bytes is not available in this runtime")
+	}
+	return screenSample[0].Value.Uint64()
+}
+
+var screen0 uint64
+
 func m0() {
 	if MeasureAlloc {
 		measuring = true
+		if AllocScreen {
+			screen0 = screenBytes()
+			return
+		}
 		runtime.ReadMemStats(&mem0)
 	}
 }
 
 func m1() {
 	if MeasureAlloc {
+		if AllocScreen {
+			AllocDelta = screenBytes() - screen0
+			measuring = false
+			return
+		}
 		runtime.ReadMemStats(&mem1)
 		AllocDelta = mem1.TotalAlloc - mem0.TotalAlloc
 		measuring = false
